@@ -20,6 +20,7 @@ def run(ctx):
         "excluded (it requires DataFrames by documentation and has its own checks, C19)")
     ctx.assumptions += ["equality of outputs for equivalent containers is decided as 'only the validated value is used'; numpy's coercion of equivalent containers to equal arrays is library behaviour"]
     guards_rules(ctx)
+    validators(ctx)
     writers(ctx)
     once(ctx)
     for cname in DETS:
@@ -394,3 +395,127 @@ def univariate(ctx, cname):
         cnt = tr.stores(tot)
         if rs and cnt and meth == "update":
             ctx.ob("ORD", site, "the univariate guard precedes counting", rs[0].seq < cnt[0].seq, "", rs[0])
+
+
+# ---------------------------------------------------------------------------
+# the four validators as complete case tables (final validation state, value returned, refusals)
+
+def _cases(t):
+    """{(frozenset of condition keys), leaf key)} of a gated-phi term: order-insensitive view of its case split."""
+    out = set()
+    for conds, l in q.ite_leaves(t):
+        out.add((frozenset(T.akey(c) for c in conds), T.akey(l)))
+    return out
+
+
+def _same_cases(a, b):
+    return a is not None and b is not None and (a == b or _cases(a) == _cases(b))
+
+
+def _g(t, name):
+    """getattr distributed over gated phis"""
+    a = t.single_atom()
+    if a is not None and a[0] == "ite":
+        return T.mk_ite(a[1], _g(a[2], name), _g(a[3], name))
+    return atom(("getattr", t, name))
+
+
+def validators(ctx):
+    X = P("X")
+    isdf = atom(("call", "isinstance", (X, atom(("global", "pandas.DataFrame"))), ()))
+    cols, dim = A("_input_cols"), A("_input_col_dim")
+    a0 = atom(("call", "numpy.array", (atom(("call", "copy.copy", (X,), ())),), ()))
+    nd = atom(("call", "len", (atom(("getattr", a0, "shape")),), ()))
+    frame_vals = atom(("mcall", atom(("getattr", X, "values")), "copy", (), ()))
+    xcols = atom(("getattr", X, "columns"))
+    for base, shape_args, rows_bad in (("StreamingDetector", (const(1), const(-1)), lambda r: T.mk_cmp("!=", r, const(1))),
+                                       ("BatchDetector", (const(-1), const(1)), lambda r: T.mk_cmp("<=", r, const(1)))):
+        site = base + "._validate_X"
+        tr = vtrace(ctx, base, "_validate_X", nonnull=("X",))
+        coerced = T.mk_ite(T.mk_cmp("<=", nd, const(1)), atom(("mcall", a0, "reshape", shape_args, ())), a0)
+        want_ret = T.mk_ite(isdf, frame_vals, coerced)
+        width = q.sub(_g(coerced, "shape"), 1)
+        want_cols = T.mk_ite(isdf, T.mk_ite(T.mk_cmp("==", cols, T.NONE), xcols, cols), cols)
+        want_dim = T.mk_ite(isdf, T.mk_ite(T.mk_cmp("==", cols, T.NONE), atom(("call", "len", (xcols,), ())), dim),
+                            T.mk_ite(T.mk_cmp("==", dim, T.NONE), width, dim))
+        fin = tr.final.attrs if tr.final is not None else {}
+        ctx.ob("TAB-validate", site, "value returned: a copy of the frame's values, or the array coerced to two dimensions (%s)" % ("one row" if base.startswith("Stream") else "one column"),
+               _same_cases(tr.retval, want_ret), "returned %s" % (q.short(tr.retval, 200) if tr.retval is not None else None))
+        ctx.ob("TAB-validate", site, "column names: adopted from the first frame, kept afterwards, untouched by arrays", _same_cases(fin.get("_input_cols", cols), want_cols),
+               q.short(fin.get("_input_cols", cols), 200))
+        ctx.ob("TAB-validate", site, "width: number of columns of the first frame / second dimension of the first (coerced) array, kept afterwards",
+               _same_cases(fin.get("_input_col_dim", dim), want_dim), q.short(fin.get("_input_col_dim", dim), 240))
+        rows = q.sub(_g(want_ret, "shape"), 0)
+        want_raises = [
+            ("columns differ from those of earlier frames", {isdf, T.mk_cmp("!=", cols, T.NONE), T.mk_not(atom(("mcall", xcols, "equals", (cols,), ())))}),
+            ("width differs from the established width", {T.mk_not(isdf), T.mk_cmp("!=", dim, T.NONE), T.mk_cmp("!=", width, dim)}),
+            ("wrong number of rows", None),
+        ]
+        rs = [e for e in tr.raises() if e.exc == "ValueError"]
+        ctx.ob("TAB-validate", site, "exactly three refusals, all ValueError", len(rs) == 3 and len(tr.raises()) == 3, "found %d" % len(tr.raises()))
+        got = [set(T.akey(g) for g in guards(e)) for e in rs]
+        for what, gs in want_raises[:2]:
+            ctx.ob("TAB-validate", site, "refusal: " + what, {T.akey(g) for g in gs} in got, "guard sets found: %s" % "; ".join(q.short(g, 70) for e in rs for g in guards(e))[:400])
+        # the row-count refusal, distributed over the container cases
+        rowg = None
+        for e in rs:
+            gl = guards(e)
+            if len(gl) == 1 and _shape_idx(gl[0]) == 0:
+                rowg = gl[0]
+        want_rowg = _distribute(rows, rows_bad)
+        ctx.ob("TAB-validate", site, "refusal: " + ("anything but exactly one row" if base.startswith("Stream") else "one row or fewer"),
+               rowg is not None and _same_cases(rowg, want_rowg), q.short(rowg, 200) if rowg is not None else "not found")
+    for base in ("StreamingDetector", "BatchDetector"):
+        ti = vtrace(ctx, base, "__init__")
+        at = ti.final.attrs if ti.final is not None else {}
+        for k in ("_input_cols", "_input_col_dim"):
+            ctx.ob("FRM-init", base + ".__init__", "%s starts as None (nothing established yet)" % k, at.get(k) == T.NONE, q.short(at.get(k), 40) if at.get(k) is not None else "unset")
+    # label validators
+    y = P("y")
+    tr = vtrace(ctx, "StreamingDetector", "_validate_y")
+    ary = atom(("mcall", atom(("call", "numpy.array", (y,), ())), "ravel", (), ()))
+    ctx.ob("TAB-validate", "StreamingDetector._validate_y", "a label is flattened and returned", tr.retval == ary, q.short(tr.retval, 100) if tr.retval is not None else "")
+    rs = tr.raises()
+    okr = len(rs) == 1 and rs[0].exc == "ValueError" and guards(rs[0]) == [T.mk_cmp("!=", atom(("getattr", ary, "shape")), atom(("tuple", (const(1),))))]
+    ctx.ob("TAB-validate", "StreamingDetector._validate_y", "refused exactly when it is not a single value", okr, "; ".join(q.short(g, 80) for e in rs for g in guards(e)))
+    tr = vtrace(ctx, "BatchDetector", "_validate_y")
+    b0 = atom(("call", "numpy.array", (y,), ()))
+    ndy = atom(("call", "len", (atom(("getattr", b0, "shape")),), ()))
+    cy = T.mk_ite(T.mk_cmp("<=", ndy, const(1)), atom(("mcall", b0, "reshape", (const(1), const(-1)), ())), b0)
+    ctx.ob("TAB-validate", "BatchDetector._validate_y", "labels are coerced to two dimensions and returned", _same_cases(tr.retval, cy), q.short(tr.retval, 160) if tr.retval is not None else "")
+    rs = [e for e in tr.raises() if e.exc == "ValueError"]
+    sh = _g(cy, "shape")
+    g_rows = _distribute(q.sub(sh, 0), lambda r: T.mk_cmp("==", r, const(1)))
+    g_cols = _distribute(q.sub(sh, 1), lambda r: T.mk_cmp("!=", r, const(1)))
+    found = [guards(e) for e in rs]
+    ok1 = any(len(gl) == 1 and _same_cases(gl[0], g_rows) for gl in found)
+    ok2 = any(len(gl) == 2 and _same_cases(gl[1], g_cols) and (_same_cases(gl[0], _neg(g_rows)) or gl[0] == T.mk_not(g_rows) or _same_cases(_neg(gl[0]), g_rows) or _same_cases(gl[0], _distribute(q.sub(sh, 0), lambda r: T.mk_cmp("!=", r, const(1))))) for gl in found)
+    ctx.ob("TAB-validate", "BatchDetector._validate_y", "refused when there is a single row", len(rs) == 2 and ok1, "; ".join(q.short(g, 80) for gl in found for g in gl)[:300])
+    ctx.ob("TAB-validate", "BatchDetector._validate_y", "refused when there is not exactly one column", len(rs) == 2 and ok2, "; ".join(q.short(g, 80) for gl in found for g in gl)[:300])
+    # dispatch: every argument that is given is validated by its own validator, None passes through
+    for base in ("StreamingDetector", "BatchDetector"):
+        tr = vtrace(ctx, base, "_validate_input")
+        a = tr.retval.single_atom() if tr.retval is not None else None
+        ok = a is not None and a[0] == "tuple" and len(a[1]) == 3
+        if ok:
+            for i, (p, fn) in enumerate((("X", "_validate_X"), ("y_true", "_validate_y"), ("y_pred", "_validate_y"))):
+                el = a[1][i]
+                leaves = list(q.ite_leaves(el))
+                given = T.mk_cmp("!=", P(p), T.NONE)
+                ok = ok and len(leaves) >= 2
+                for conds, l in leaves:
+                    if given in conds:
+                        ok = ok and T.mentions(l, lambda z: z == ("param", p)) and l != P(p)
+                    else:
+                        ok = ok and l == P(p)
+            cs = {(e.fi.name, q.short(e.args[0], 20)) for e in tr.calls() if e.d.get("fi") is not None and e.fi.name in ("_validate_X", "_validate_y") and len(e.stack) == 1}
+            ok = ok and cs == {("_validate_X", "X"), ("_validate_y", "y_true"), ("_validate_y", "y_pred")}
+        ctx.ob("TAB-validate", base + "._validate_input", "each given argument goes through its own validator, None passes through, result order (X, y_true, y_pred)", ok,
+               q.short(tr.retval, 200) if tr.retval is not None else "")
+
+
+def _distribute(t, f):
+    a = t.single_atom()
+    if a is not None and a[0] == "ite":
+        return T.mk_ite(a[1], _distribute(a[2], f), _distribute(a[3], f))
+    return f(t)
